@@ -21,6 +21,7 @@ pub struct DocAvp {
     vendor: Option<u32>,
     must: Option<String>,
     ty: String,
+    items: Option<usize>,
 }
 pub struct DocApp {
     id: u32,
@@ -430,7 +431,18 @@ fn render_xml(doc: &[DocApp]) -> String {
             if let Some(v) = a.vendor {
                 x.push_str(&format!(" vendor-id=\"{}\"", v));
             }
-            x.push_str(&format!(">\n      <data type=\"{}\"/>\n    </avp>\n", xml_escape(&a.ty)));
+            // enumeration items are documentation as far as the library is concerned: whatever the type name, some
+            // definitions carry them
+            let items = a.items.unwrap_or((a.name.len() + a.code as usize) % 3);
+            if items == 0 {
+                x.push_str(&format!(">\n      <data type=\"{}\"/>\n    </avp>\n", xml_escape(&a.ty)));
+            } else {
+                x.push_str(&format!(">\n      <data type=\"{}\">\n", xml_escape(&a.ty)));
+                for k in 0..items {
+                    x.push_str(&format!("        <item code=\"{}\" name=\"ITEM_{}\"/>\n", k, k));
+                }
+                x.push_str("      </data>\n    </avp>\n");
+            }
         }
         x.push_str("  </application>\n");
     }
@@ -576,6 +588,20 @@ impl State {
                     None => "bad-op".into(),
                 }
             }
+            ["avp", n, c, v, must, t, items] => {
+                // explicit number of <item> children
+                let k: usize = match items.parse() {
+                    Ok(k) => k,
+                    Err(_) => return "bad-op".into(),
+                };
+                let r = self.step(&format!("avp {} {} {} {} {}", n, c, v, must, t));
+                if r == "ok" {
+                    if let Some(a) = self.app.as_mut() {
+                        a.avps.last_mut().unwrap().items = Some(k);
+                    }
+                }
+                r
+            }
             ["avp", n, c, v, must, t] => {
                 let must = if *must == "~" { Some(None) } else { unhex_str(must).map(Some) };
                 let (n, c, v, must, t) = match (unhex_str(n), c.parse::<u32>().ok(), p_vendor(v), must, unhex_str(t)) {
@@ -584,7 +610,7 @@ impl State {
                 };
                 match self.app.as_mut() {
                     Some(a) => {
-                        a.avps.push(DocAvp { name: n, code: c, vendor: v, must, ty: t });
+                        a.avps.push(DocAvp { name: n, code: c, vendor: v, must, ty: t, items: None });
                         "ok".into()
                     }
                     None => "bad-op".into(),
